@@ -187,7 +187,20 @@ pub fn history(pool: &Pool, seed: u64, n: u64) -> Scenario {
             57..=60 => ops.push(Op::SetMtime { path: gs[gi].path.clone(), secs: *rng.pick(&[-400_000_000i64, 0, 86_400, 900_000_000]) }),
             61..=64 => ops.push(Op::SetMtime { path: gs[gi].out.clone(), secs: *rng.pick(&[-400_000_000i64, 0, 900_000_000]) }),
             65..=71 => ops.push(Op::Remove { path: gs[gi].out.clone() }),
-            72..=83 => ops.push(Op::EditHeader { path: gs[gi].out.clone(), edit: header_edit(&mut rng) }),
+            72..=81 => ops.push(Op::EditHeader { path: gs[gi].out.clone(), edit: header_edit(&mut rng) }),
+            82..=83 => {
+                // a foreign file at the output path: hand-written code, junk, or another grammar's output
+                match rng.below(3) {
+                    0 => ops.push(Op::Write { path: gs[gi].out.clone(), content: Content::Text("// hand-written\npub fn not_a_parser() {}\n".into()) }),
+                    1 => ops.push(Op::Write { path: gs[gi].out.clone(), content: Content::Hex("00ff10800a0a7f454c46".into()) }),
+                    _ => {
+                        let other = rng.below(gs.len() as u64) as usize;
+                        if other != gi {
+                            ops.push(Op::Copy { from: gs[other].out.clone(), to: gs[gi].out.clone() });
+                        }
+                    }
+                }
+            }
             84..=91 => {
                 // introduce an error
                 let g = &mut gs[gi];
